@@ -62,6 +62,7 @@ theorem apply_inRange (t : T) (op : Op) (h : InRange t) : InRange (apply t op) :
       split
       · simp only [reset]; omega
       · omega
+    | staleFire => simp only [apply, reset]; omega
   refine ⟨hl.1, ?_, by rw [hc.2.1]; exact h2⟩
   rw [hc.1]; exact hl.2
 
@@ -124,6 +125,7 @@ theorem no_timer_never_fires (ds : List Int) (r i : Int) (hi : i ≤ 0) (ops : L
         | release n => simp [apply, release, touch, h1, h2]
         | reset => simp [apply, reset]
         | fire n => simp only [apply, fire]; split <;> simp [reset, h2]
+        | staleFire => simp [apply, reset]
   have h0 : (new ds r i).hasTimer = false := by simp [new]; omega
   have := (hinv ops _ h0 rfl).2
   simp [fireEnabled, this]
@@ -142,45 +144,68 @@ theorem delay_defined (t : T) (h : InRange t) : ∃ d, current t = some d := by
   have : ¬ t.level < 0 := by omega
   simp [this, List.getElem?_eq_getElem hlt]
 
-/-- **Delay is bounded and cancellable.** A throttled request blocks for a
-non-negative time that is at most the current delay and at most the time its
-context has left; it reports the context error exactly when the context ends
-strictly before the delay has elapsed, and then it returned at that moment;
-otherwise it blocked for exactly the delay. -/
-theorem delay_bounded_and_cancellable (d : Int) (c : Option Nat) :
-    let r := delayOf d c
-    0 ≤ r.waited ∧ r.waited ≤ max d 0 ∧
-    (∀ k, c = some k → r.waited ≤ (k : Int)) ∧
-    (r.ctxErr = true ↔ ∃ k, c = some k ∧ (k : Int) < d) ∧
-    (r.ctxErr = true → ∀ k, c = some k → r.waited = k) ∧
-    (r.ctxErr = false → r.waited = max d 0) := by
+/-- **Delay is bounded and cancellable — for EVERY behaviour of Go's `select` that obeys
+the two laws of `SelectSem`** (the earlier-ready case is taken; when both are ready at the
+same instant either may be). A throttled request blocks for a non-negative time that is at
+most the current delay and at most the time its context has left. If the context ends
+strictly before the delay has elapsed it returns the context error at that moment; if the
+delay elapses strictly first it returns nil after exactly the delay; in a tie either result
+is allowed, with the same waiting time. -/
+theorem delay_bounded_and_cancellable (S : SelectSem) (d : Int) (c : Option Nat) :
+    0 ≤ (delayOf S d c).waited ∧ (delayOf S d c).waited ≤ max d 0 ∧
+    (∀ k, c = some k → (delayOf S d c).waited ≤ (k : Int)) ∧
+    ((∃ k, c = some k ∧ (k : Int) < d) → (delayOf S d c).ctxErr = true) ∧
+    ((delayOf S d c).ctxErr = true → ∃ k, c = some k ∧ (k : Int) ≤ max d 0 ∧ d ≠ 0 ∧
+      (delayOf S d c).waited = k) ∧
+    ((delayOf S d c).ctxErr = false → (delayOf S d c).waited = max d 0) := by
   unfold delayOf
   by_cases hd : d = 0
   · subst hd
     simp
-  · cases c with
-    | none =>
-      by_cases hneg : d < 0 <;> simp [hd, hneg] <;> omega
+  · simp only [hd, if_false]
+    cases c with
+    | none => simp; omega
     | some k =>
-      by_cases hneg : d < 0
-      · have : (0 : Int) ≤ (k : Int) := by omega
-        simp [hd, hneg, this]; omega
-      · by_cases hk : d ≤ (k : Int)
-        · simp [hd, hneg, hk]; omega
-        · simp [hd, hneg, hk]; omega
+      simp only [Option.some.injEq, exists_eq_left', forall_eq']
+      rcases Nat.lt_trichotomy d.toNat k with hlt | heq | hgt
+      · have := S.timer_first _ _ hlt
+        simp only [this, if_true]
+        refine ⟨by omega, by omega, by omega, fun h => by omega, fun h => by simp at h, fun _ => by omega⟩
+      · cases S.pickTimer d.toNat k
+        · simp only [Bool.false_eq_true, if_false]
+          refine ⟨by omega, by omega, by omega, fun _ => trivial, fun _ => ⟨by omega, hd, trivial⟩, fun h => by simp at h⟩
+        · simp only [if_true]
+          refine ⟨by omega, by omega, by omega, fun h => by omega, fun h => by simp at h, fun _ => by omega⟩
+      · have := S.ctx_first _ _ hgt
+        simp only [this, Bool.false_eq_true, if_false]
+        refine ⟨by omega, by omega, by omega, fun _ => trivial, fun _ => ⟨by omega, hd, trivial⟩, fun h => by simp at h⟩
 
-/-- for every reachable state, `Delay` is defined and obeys the bound -/
-theorem delay_in_reachable (ds : List Int) (r i : Int) (ops : List Op) (c : Option Nat) :
+/-- the two admissible tie-breaks really differ: the theorem above does not pin the tie -/
+theorem select_tie_is_open :
+    delayOf SelectSem.tieTimer 50 (some 50) = ⟨50, false⟩ ∧
+    delayOf SelectSem.tieCtx 50 (some 50) = ⟨50, true⟩ := by decide
+
+/-- for every reachable state and every `select` behaviour, `Delay` is defined and obeys the bound -/
+theorem delay_in_reachable (S : SelectSem) (ds : List Int) (r i : Int) (ops : List Op) (c : Option Nat) :
     ∃ d res, current (run (new ds r i) ops) = some d ∧
-      delay (run (new ds r i) ops) c = some res ∧
+      delay S (run (new ds r i) ops) c = some res ∧
       0 ≤ res.waited ∧ res.waited ≤ max d 0 ∧ (∀ k, c = some k → res.waited ≤ (k : Int)) := by
   obtain ⟨d, hd⟩ := delay_defined _ (level_in_range ds r i ops)
-  refine ⟨d, delayOf d c, hd, by simp [delay, hd], ?_⟩
-  have := delay_bounded_and_cancellable d c
+  refine ⟨d, delayOf S d c, hd, by simp [delay, hd], ?_⟩
+  have := delay_bounded_and_cancellable S d c
   exact ⟨this.1, this.2.1, this.2.2.1⟩
 
-example : delayOf 50 (some 20) = ⟨20, true⟩ ∧ delayOf 50 (some 80) = ⟨50, false⟩ ∧
-          delayOf 50 none = ⟨50, false⟩ ∧ delayOf 0 (some 0) = ⟨0, false⟩ := by decide
+example : delayOf SelectSem.tieTimer 50 (some 20) = ⟨20, true⟩ ∧ delayOf SelectSem.tieCtx 50 (some 80) = ⟨50, false⟩ ∧
+          delayOf SelectSem.tieCtx 50 none = ⟨50, false⟩ ∧ delayOf SelectSem.tieCtx 0 (some 0) = ⟨0, false⟩ := by decide
+
+/-- The stale-callback race the atomic `fire` step cannot show: an `AfterFunc` callback that
+was already launched when `Signal` re-armed the timer runs `Reset` afterwards — the level drops
+to zero right after a pressure signal and the freshly armed timer is stopped. The level still
+never leaves its range (`level_in_range` includes this step). -/
+theorem stale_callback_zeroes_after_signal_witness :
+    (run (new [0, 5, 9] 1 30) [.signal 0, .signal 31, .staleFire]).level = 0 ∧
+    (run (new [0, 5, 9] 1 30) [.signal 0, .signal 31, .staleFire]).deadline = none ∧
+    (run (new [0, 5, 9] 1 30) [.signal 0, .signal 31]).level = 2 := by decide
 
 /-! ### regenerated facts -/
 
